@@ -23,6 +23,8 @@ import (
 //	cancel   cancel the context of subscriber Sub
 //	read     the manual reader of subscriber Sub receives up to N values
 //	close    N overlapping Close calls (N<1: one); may be issued again later
+//	parkfired hold the queue's loop at queue.loop.fired (woken for an item, before execute takes the queue lock)
+//	parktimer hold the queue's loop at queue.loop.beforeTimer (between clock.Now() and clock.NewTimer())
 //	parkcas  hold the Close call that wins the processor's CAS at queue.close.afterCAS (before it closes stopCh)
 //	parksend hold `execute` at batcher.execute.beforeSend for subscriber Sub (the lock is held) the next time it gets there
 //	parkexit hold the forwarder of subscriber Sub at batcher.forwarder.exit (about to take the lock)
@@ -82,8 +84,9 @@ type Ev struct {
 	Sub int    `json:"sub,omitempty"`
 	Key int    `json:"key,omitempty"`
 	V   int    `json:"v,omitempty"`
-	Now int64  `json:"now"`         // clock value when logged, ns from base
-	P   string `json:"p,omitempty"` // send | exit
+	Now int64  `json:"now"`          // clock value when logged, ns from base
+	P   string `json:"p,omitempty"`  // send | exit | cas | fired | timer
+	At  int64  `json:"at,omitempty"` // park at fired/timer: scheduled time of the loop's item, ns from base
 }
 
 func (e Ev) Line() string {
@@ -97,6 +100,9 @@ func (e Ev) Line() string {
 	case "recv", "xsend":
 		return fmt.Sprintf("%s sub=%d v=%d", e.K, e.Sub, e.V)
 	case "park":
+		if e.P == "fired" || e.P == "timer" {
+			return fmt.Sprintf("park p=%s key=%d at=%d", e.P, e.Key, e.At)
+		}
 		return fmt.Sprintf("park p=%s sub=%d v=%d", e.P, e.Sub, e.V)
 	case "unpark":
 		return fmt.Sprintf("unpark p=%s sub=%d", e.P, e.Sub)
@@ -163,6 +169,7 @@ type World struct {
 	closePending atomic.Int32 // Close calls that have not returned
 	closeRet     atomic.Bool  // some Close call has returned
 	firstClose   atomic.Bool  // a Close call has been made (set atomically with its ccall event)
+	gateReleased atomic.Bool  // the clock gate was given up at queue.loop.beforeTimer (loop held there)
 	wg           sync.WaitGroup
 
 	subAfterClose bool
@@ -275,13 +282,42 @@ func (w *World) hook(name string, args ...any) {
 		if !args[1].(bool) {
 			w.clk.gate.RUnlock()
 		}
+		w.loopPark("fired", args[0])
+	case "queue.loop.beforeTimer":
+		// held here the clock may advance (the timer is then late by that advance: C06 late_bound)
+		if r := w.findPark("timer", 0); r != nil {
+			w.clk.gate.RUnlock()
+			w.gateReleased.Store(true)
+			w.loopPark("timer", args[0])
+		}
 	case "queue.loop.parked":
 		w.loopState.Store(loopParked)
-		w.clk.gate.RUnlock()
+		if !w.gateReleased.Swap(false) {
+			w.clk.gate.RUnlock()
+		}
 	case "queue.loop.released":
 		w.inExec.Store(false)
 		w.loopState.Store(loopAbsent)
 	}
+}
+
+// loopPark holds the queue's loop goroutine at one of its own hook points.
+func (w *World) loopPark(p string, item any) {
+	r := w.findPark(p, 0)
+	if r == nil || !r.hit.CompareAndSwap(false, true) {
+		return
+	}
+	e := Ev{K: "park", P: p}
+	if it, ok := item.(interface {
+		Key() int
+		ScheduledTime() time.Time
+	}); ok {
+		e.Key, e.At = it.Key(), it.ScheduledTime().Sub(w.base).Nanoseconds()
+	}
+	w.add(e)
+	w.heldExit.Add(1)
+	<-r.release
+	w.heldExit.Add(-1)
 }
 
 func (w *World) subsSnapshot() []*subRec {
@@ -578,13 +614,22 @@ func (w *World) exec(o Op) {
 			}()
 		}
 		w.settle(opGrace)
-	case "parksend", "parkexit", "parkcas":
+	case "parksend", "parkexit", "parkcas", "parkfired", "parktimer":
 		p := "send"
 		if o.Op == "parkexit" {
 			p = "exit"
 		}
 		if o.Op == "parkcas" {
 			p = "cas"
+		}
+		if o.Op == "parkfired" {
+			p = "fired"
+		}
+		if o.Op == "parktimer" {
+			p = "timer"
+		}
+		if p == "cas" || p == "fired" || p == "timer" {
+			o.Sub = 0
 		}
 		w.parksMu.Lock()
 		w.parks = append(w.parks, &parkReq{p: p, sub: o.Sub, release: make(chan struct{})})
